@@ -73,3 +73,6 @@ def spec(tier, seed):
 def replay_candidate(v, work, log):
     from .. import replay
     return replay.replay_by_sweep("C02", v, work, log)
+
+
+FALLBACK_SWEEP = ("patch", "replay_sweep_multi_hunk")
